@@ -84,6 +84,25 @@ pub enum CmapFormat {
     Format4,
     /// both subtables (format 4 gets the BMP part of the mapping).
     Both,
+    /// several encoding records: bit k of the mask = record CMAP_RANKED[k] is present.  The most preferred
+    /// record present (lowest k: the order in which a shaper must look for them) holds the mapping; every
+    /// other record holds a decoy mapping (glyph ids rotated by one), so choosing the wrong record shows.
+    /// Records 0..3 are written as format 12, the others as format 4 (BMP part).
+    Records(u8),
+}
+
+/// (platform, encoding) in order of preference: Windows full, Unicode full (6, 4), Windows BMP, Unicode BMP (3, 2, 1, 0).
+pub const CMAP_RANKED: [(u16, u16); 8] = [(3, 10), (0, 6), (0, 4), (3, 1), (0, 3), (0, 2), (0, 1), (0, 0)];
+
+impl CmapFormat {
+    /// true when the record that holds the mapping is a 16-bit (format 4) one
+    pub fn is_16bit(&self) -> bool {
+        match self {
+            CmapFormat::Format4 => true,
+            CmapFormat::Records(mask) => (mask & 7) == 0,
+            _ => false,
+        }
+    }
 }
 
 // ---------------------------------------------------------------------------------------------
